@@ -378,9 +378,16 @@ def c10_printer_eval(p):
     return out
 
 
+# a contract whose re-simplification on reading back loses a guarantee: HiGHS reports a wrong optimum on rows spanning seven orders
+# of magnitude (open finding, key C10:strings:meaning:badly_scaled_lp; thorough tier, 1 of 32000 cases) - run on every check
+PINNED_C10 = [{"op": "serial", "exact4": False, "c": {"in": ["i0", "in_1"], "out": ["o0", "out_b"], "a": [[{"i0": -0.003892322672600805, "in_1": 9829.481604451545}, 0.25865659447615863], [{"in_1": 0.016420423842930215, "i0": -861.8628249298828}, 0.9081653148093969]], "g": [[{"o0": 3750.117448313428, "in_1": 6194.223839595866, "i0": 7523.9493067093845}, -890843.5465643572], [{"out_b": 26332.59095594374, "in_1": 0.6056025330468773, "o0": 0.0020365651909609412}, 49.603494912765925], [{"o0": -3750.117448313428, "in_1": -6194.223839595866, "i0": -7523.9493067093845, "out_b": -0.002434189268113644}, -890843.5465643572], [{"o0": 231.65434755416751, "out_b": 0.976275247318358}, -0.41823470091333087]]}, "mode": "strings"}]
+
+
 def c10_build(seed, tier):
     if seed % 1000003 < len(PINNED_PRINTER):
         return {"op": "printer", "terms": PINNED_PRINTER[seed % 1000003]}
+    if seed % 1000003 < len(PINNED_PRINTER) + len(PINNED_C10):
+        return json.loads(json.dumps(PINNED_C10[seed % 1000003 - len(PINNED_PRINTER)]))
     g = Gen(seed)
     r = g.r
     exact4 = r.random() < 0.6
@@ -465,7 +472,11 @@ def c10_eval(p):
         for hyp, con, what in [([back.a], ref_a, "assumptions read back are weaker"), ([ref_a], back.a, "assumptions read back are stronger"), ([back.a, back.g], ref_g, "a guarantee was lost"), ([ref_a, ref_g], back.g, "a guarantee was added")]:
             m = implies_exact(hyp, con, tol=Fraction(1, 10**9))
             if m not in (None, "unknown"):
-                out["violation"] = _viol("C10", p["mode"], "meaning", what + " (point %s)" % (m,), p, "c10_eval")
+                # (rows whose coefficients span six orders of magnitude or more: the LP solver's answers in the re-simplification on
+                # reading back can be wrong - the open finding keyed :badly_scaled_lp, as for C08)
+                mags = [abs(float(v)) for tl in (c.a, c.g) for t in tl.terms for v in t.variables.values() if v != 0]
+                tag = ":badly_scaled_lp" if mags and max(mags) / min(mags) >= 1e6 and p["mode"] in ("strings", "human_file", "machine_file") else ""
+                out["violation"] = _viol("C10", p["mode"], "meaning" + tag, what + " (point %s)" % (m,), p, "c10_eval")
                 break
     except ValueError as e:
         # reading back re-simplifies: an unsatisfiable contract is (documentedly) rejected with ValueError
